@@ -60,9 +60,9 @@ func VerifC04Filters() {
 		setup := false
 		cleared, unionAfterClear := false, false
 		for l := 0; l < L; l++ {
-			nf := 11
+			nf := 12
 			if vndParam("fpUF") == 0 && vndParam("withFloat") == 1 {
-				nf = 12 // WithFloat only where floating point keeps its real semantics (thorough tier)
+				nf = 13 // WithFloat only where floating point keeps its real semantics (thorough tier)
 			}
 			f := vndChoice("filter", nf)
 			if f == 8 {
@@ -129,6 +129,19 @@ func VerifC04Filters() {
 			case 9:
 				txn.Without("missing")
 			case 11:
+				if setup {
+					// a union of names that do not exist is the empty set: nothing stays selected
+					txn.WithUnion("missing", "missing2")
+					for i := 0; i < w.n; i++ {
+						sel[i] = false
+					}
+				} else {
+					txn.With("b")
+					for i := 0; i < w.n; i++ {
+						sel[i] = sel[i] && w.b[i].has
+					}
+				}
+			case 12:
 				kf := math.Float64frombits(vndU64("kf"))
 				txn.WithFloat("a", func(v float64) bool { return v < kf })
 				for i := 0; i < w.n; i++ {
